@@ -73,12 +73,13 @@ pub fn run(ctx: &mut Ctx) {
     let mut v = vec![];
     for_all_strings(&q_alpha, if ctx.thorough { 6 } else { 5 }, |s| v.push(format!("\"{s}\"")));
     for l in &v { lit_case(ctx, l); }
-    let b_alpha = ["\"", "\\", "\n", "\r", " ", "\t", "x", "é"];
+    // U+3000 is Unicode White_Space but not GraphQL WhiteSpace: it is content, never indentation
+    let b_alpha = ["\"", "\\", "\n", "\r", " ", "\t", "x", "é", "\u{3000}"];
     let mut v = vec![];
     for_all_strings(&b_alpha, if ctx.thorough { 7 } else { 6 }, |s| v.push(format!("\"\"\"{s}\"\"\"")));
     for l in &v { lit_case(ctx, l); }
     // random longer block strings with indentation structure
-    let pieces = ["  ", "\t", " ", "a", "é", "\n", "\r\n", "\r", "\\\"\"\"", "\"", "\"\"", "\\", "x y", "\u{feff}"];
+    let pieces = ["  ", "\t", " ", "a", "é", "\n", "\r\n", "\r", "\\\"\"\"", "\"", "\"\"", "\\", "x y", "\u{feff}", "\u{a0}", "\u{3000}", "\u{2003}", "\u{2028}", "\u{85}", "\u{1680}"];
     let n = if ctx.thorough { 300_000 } else { 40_000 };
     for _ in 0..n {
         let len = 1 + ctx.rng.below(12);
